@@ -9,8 +9,9 @@ timer expiries racing with stop(), failures injected while the PDU is built, in 
 in the LDM feed), over the static configuration and over the distance function `hav`; proofs are by induction on
 the sequence through a one-step simulation.  An emitted CAM / VAM in the log is a TRANSMISSION.
 
-Variant flags of the models (`ldmIsolated`, `restartHold`, `lfAfterSend`): `true` = the repaired code
-(fixes/C10-cam-ldm-failure, fixes/C10-cam-restart-min-gap, fixes/C10-vam-lf-time-after-send); the full theorems are
+Variant flags of the models (`ldmIsolated`, `restartHold`, `holdSticky`, `lfAfterSend`): `true` = the repaired code
+(fixes/C10-cam-ldm-failure, fixes/C10-cam-restart-min-gap - the hold and the fact that only a CAM of the activation
+that just ended ever rewrites it -, fixes/C10-vam-lf-time-after-send); the full theorems are
 stated for the repaired variants, a `_witness` theorem shows the violation of each unrepaired one, and
 `code_is_repaired_variant` ties the flags to facts regenerated from the source.
 -/
@@ -33,11 +34,14 @@ theorem code_shape :
     Generated.FacFlow.CAM_GENERATE_STATE_WRITES = [] ∧ Generated.FacFlow.CAM_UPDATE_AFTER_SEND_TRY = true ∧
     Generated.FacFlow.VAM_GDT_RAW_COMPARISONS = 0 := by decide
 
-/-- the code is the repaired variant of each of the three defects of this round (the LDM feed cannot abort the
-bookkeeping of a transmitted CAM; the restart hold exists; the VAM low-frequency timer is recorded after the BTP
-request) — false on a tree that lacks the fixes, where the `_witness` theorems below apply instead -/
+/-- the code is the repaired variant of each of the three defects of round 3 (the LDM feed cannot abort the
+bookkeeping of a transmitted CAM; the restart hold exists, and it is stored only by `start()`, only when a CAM went
+out in the activation that just ended, never as `None` — so a second, third ... quick restart without a CAM in between
+cannot clear it; the VAM low-frequency timer is recorded after the BTP request) — false on a tree that lacks the
+fixes, where the `_witness` theorems below apply instead -/
 theorem code_is_repaired_variant :
     Generated.FacFlow.CAM_LDM_ISOLATED = true ∧ Generated.FacFlow.CAM_RESTART_HOLD = true ∧
+    Generated.FacFlow.CAM_RESTART_HOLD_STICKY = true ∧
     Generated.FacFlow.VAM_LF_TIME_AFTER_SEND = true := by decide
 
 /-! ## CAM (CAMTransmissionManagement) -/
@@ -60,11 +64,25 @@ theorem cam_min_gap (hav : Pos → Pos → Nat) (cfg : Cfg) (hI : cfg.ldmIsolate
     accepts minGapMon {} (camLog hav cfg ops) = true :=
   accepts_of_sim (Cam.step hav) minGapMon CamLemmas.MinRel (minGap_sim hav) ops _ _ ⟨hI, rfl, rfl⟩
 
-/-- ALL consecutive CAMs are at least T_GenCamMin apart, across stop/start cycles too (repaired variant) -/
+/-- ALL consecutive CAMs are at least T_GenCamMin apart, across stop/start cycles too — any number of them, with or
+without a CAM in the activations in between (repaired variant: the hold exists and only a CAM rewrites it) -/
 theorem cam_min_gap_all_activations (hav : Pos → Pos → Nat) (cfg : Cfg) (hI : cfg.ldmIsolated = true)
-    (hH : cfg.restartHold = true) (ops : List Cam.Op) :
+    (hH : cfg.restartHold = true) (hS : cfg.holdSticky = true) (ops : List Cam.Op) :
     accepts gMinGapMon {} (camLog hav cfg ops) = true :=
-  accepts_of_sim (Cam.step hav) gMinGapMon GMinRel (gMinGap_sim hav) ops _ _ ⟨hI, hH, rfl, rfl⟩
+  accepts_of_sim (Cam.step hav) gMinGapMon GMinRel (gMinGap_sim hav) ops _ _ ⟨hI, hH, hS, rfl, rfl⟩
+
+/-- the invariant behind it, stated on its own: after ANY history in which the last CAM went out at `t` (in whatever
+activation, however many stop/start cycles ago), either that activation is still running or the state still holds
+`t + T_GenCamMin` as the earliest time of the next CAM.  `quiet` is an arbitrary CAM-free continuation: any number of
+restarts, reports, expiries, held checks. -/
+theorem cam_hold_survives_restarts (hav : Pos → Pos → Nat) (cfg : Cfg) (hS : cfg.holdSticky = true)
+    (pre quiet : List Cam.Op) (t : Nat) (f : Fail) (c : CamOut)
+    (hcam : (Cam.step hav (final (Cam.step hav) (Cam.init cfg) pre) (.check t f)).2 = some c)
+    (hbk : f.bookkept cfg = true)
+    (hq : ∀ e ∈ events (Cam.step hav) (Cam.step hav (final (Cam.step hav) (Cam.init cfg) pre) (.check t f)).1 quiet, e.2 = none) :
+    let s := final (Cam.step hav) (Cam.step hav (final (Cam.step hav) (Cam.init cfg) pre) (.check t f)).1 quiet
+    s.lastCamTime = some t ∨ (s.lastCamTime = none ∧ s.holdUntil = some (t + Generated.Fac.T_GEN_CAM_MIN)) :=
+  hold_survives hav cfg hS pre quiet t f c hcam hbk hq
 
 /-- unrepaired variant (no restart hold): a stop/start cycle sends the first CAM of the new activation at once,
 here 7 ms after the previous CAM; the monitor of `cam_min_gap_all_activations` rejects that run and accepts the
@@ -74,6 +92,21 @@ theorem cam_min_gap_restart_witness :
     accepts gMinGapMon {} (camLog (fun _ _ => 0) { restartHold := false } ops) = false ∧
     (camLog (fun _ _ => 0) { restartHold := false } ops).filterMap (fun e => e.2.map (·.t)) = [1000, 1007, 1107] ∧
     (camLog (fun _ _ => 0) {} ops).filterMap (fun e => e.2.map (·.t)) = [1000, 1107] := by decide
+
+/-- unrepaired variant (`start()` reassigns the hold unconditionally, `= last + MIN if last is not None else None`):
+a single quick restart is still held, but the SECOND restart follows an activation without a CAM and clears the
+hold: CAM at 1010, restart, held check at 1030, restart, CAM at 1050 — 40 ms after the previous one.  The repaired
+variant keeps the hold through two and through three restarts and sends at the first check ≥ 100 ms after 1010. -/
+theorem cam_min_gap_double_restart_witness :
+    let ops : List Cam.Op := [.start, .report default, .check 1010 .none, .stop, .start, .check 1030 .none, .stop, .start,
+      .check 1050 .none, .check 1150 .none]
+    let ops3 : List Cam.Op := [.start, .report default, .check 1010 .none, .stop, .start, .stop, .start, .check 1050 .none,
+      .stop, .start, .check 1090 .none, .check 1109 .none, .check 1110 .none]
+    accepts gMinGapMon {} (camLog (fun _ _ => 0) { holdSticky := false } ops) = false ∧
+    (camLog (fun _ _ => 0) { holdSticky := false } ops).filterMap (fun e => e.2.map (·.t)) = [1010, 1050, 1150] ∧
+    (camLog (fun _ _ => 0) { holdSticky := false } (ops.take 6)).filterMap (fun e => e.2.map (·.t)) = [1010] ∧
+    (camLog (fun _ _ => 0) {} ops).filterMap (fun e => e.2.map (·.t)) = [1010, 1150] ∧
+    (camLog (fun _ _ => 0) {} ops3).filterMap (fun e => e.2.map (·.t)) = [1010, 1110] := by decide
 
 /-- the first serviceable check of an activation sends (unless held back by the restart hold), and while a report is
 present, no transmission attempt fails and checks are at most `P` apart, consecutive CAMs are at most
@@ -131,6 +164,10 @@ example : accepts minGapMon {} [(.start, none), (.check 1000 .none, some { (defa
     (.check 1099 .none, some { (default : CamOut) with t := 1099 })] = false := by decide
 example : accepts gMinGapMon {} [(.start, none), (.check 1000 .none, some { (default : CamOut) with t := 1000 }),
     (.stop, none), (.start, none), (.check 1050 .none, some { (default : CamOut) with t := 1050 })] = false := by decide
+/-- the global minimum interval also across TWO restarts without a CAM in between -/
+example : accepts gMinGapMon {} [(.start, none), (.check 1010 .none, some { (default : CamOut) with t := 1010 }),
+    (.stop, none), (.start, none), (.check 1030 .none, none), (.stop, none), (.start, none),
+    (.check 1050 .none, some { (default : CamOut) with t := 1050 })] = false := by decide
 example : accepts (maxGapMon true 100) {} [(.start, none), (.report default, none),
     (.check 1000 .none, some default), (.check 1100 .none, none), (.check 1200 .none, none),
     (.check 1300 .none, none), (.check 1400 .none, none), (.check 1500 .none, none), (.check 1600 .none, none),
